@@ -17,7 +17,7 @@
    property C05's theorems (Proofs/ConvertG.v, ConvertP.v) for change_compressed_axes; they include
    gcxs_wfb of the result. *)
 From Coq Require Import ZArith List Bool.
-From Verif Require Import Py Shape COO COOP GCXS Convert ConvertG NpIndex CooIndex NpJoin S_join Join Extract JoinP ExtractP JoinG TakeG.
+From Verif Require Import Py Shape COO COOP GCXS Convert ConvertG ConvertU NpIndex CooIndex NpJoin S_join Join Extract JoinP ExtractP JoinG TakeG ShapeOps ShapeOpsG JoinReshapeP.
 Import ListNotations.
 Open Scope Z_scope.
 
@@ -317,6 +317,30 @@ Theorem diagonal_den_refuted :
                     /\ c_shape c = da_shape (np_diagonal offset a1 a2 (darr_of_coo x))).
 Proof. exact diagonal_den_refuted_proof. Qed.
 
+(* GCXS stack's member preparation `arrays[i].reshape(shape with a 1 inserted at axis).change_compressed_axes((axis,))`
+   is modelled in gcxs_stack by its meaning (gcxs_from_coo (gcxs_expand k g) [axis]).  Proofs/JoinReshapeP.v ties that
+   shortcut to the transcribed kernels: C08's model of GCXS.reshape (ShapeOpsG.gcxs_reshape: _transpose/_convert_coords)
+   followed by C05's change_compressed_axes returns exactly that record, for EVERY well-formed member of ndim >= 2
+   (1-d members go through the COO joiner) — through C05's surjectivity theorem (every gcxs_strictb record is the
+   compressed form of its tocoo()) and C08's representation theorem gcxs_reshape_repr. *)
+Theorem coo_reshape_inserts_axis :
+  forall (V : Type) (c : coo V) (k : nat),
+    canonical V c ->
+    shape_ok (c_shape c) ->
+    (k <= length (c_shape c))%nat -> coo_reshape c (ins k 1 (c_shape c)) = Ok (coo_expand V k c).
+Proof. exact coo_reshape_ins. Qed.
+
+Theorem gcxs_stack_member_is_reshape :
+  forall (V : Type) (veqb : V -> V -> bool) (add : V -> V -> V) (g : gcxs V) (k : nat),
+    gcxs_strictb V g = true ->
+    (2 <= length (g_shape g))%nat ->
+    (k <= length (g_shape g))%nat ->
+    exists r : gcxs V,
+      gcxs_reshape veqb add g (ins k 1 (g_shape g)) = Some (Ok r) /\
+      change_compressed_axes V (Z.of_nat k :: nil) r =
+      gcxs_from_coo (gcxs_expand V veqb add k g) (Z.of_nat k :: nil).
+Proof. exact gcxs_stack_member_is_reshape_proof. Qed.
+
 Print Assumptions coo_concat_den.
 Print Assumptions coo_concat_canonical.
 Print Assumptions coo_concat_none_den.
@@ -343,3 +367,5 @@ Print Assumptions indptr_splice_spec.
 Print Assumptions indptr_splice_wf.
 Print Assumptions indptr_needed_bounds.
 Print Assumptions diagonal_den_refuted.
+Print Assumptions coo_reshape_inserts_axis.
+Print Assumptions gcxs_stack_member_is_reshape.
